@@ -229,7 +229,8 @@ struct CallSpec {
 struct Scenario {
     client: usize,
     creds: u64,
-    calls: Vec<CallSpec>,
+    /// sequential rounds on one service value; the calls of a round run concurrently
+    rounds: Vec<Vec<CallSpec>>,
 }
 
 fn decode_call(ch: &mut Chooser, n_ops: usize) -> CallSpec {
@@ -250,16 +251,32 @@ fn decode_call(ch: &mut Chooser, n_ops: usize) -> CallSpec {
 fn decode_scenario(ch: &mut Chooser, infos: &[ClientInfo]) -> Scenario {
     let client = ch.choose("client", infos.len() as u64) as usize;
     let creds = ch.choose("credentials", N_CREDS);
-    let n = 1 + ch.choose("concurrent_calls", 3) as usize;
-    let calls = (0..n).map(|_| decode_call(ch, infos[client].ops.len())).collect();
-    Scenario { client, creds, calls }
+    let n_rounds = 1 + ch.choose("sequential_rounds", 3) as usize;
+    let mut rounds = Vec::new();
+    for _ in 0..n_rounds {
+        let n = 1 + ch.choose("concurrent_calls", 3) as usize;
+        rounds.push((0..n).map(|_| decode_call(ch, infos[client].ops.len())).collect());
+    }
+    Scenario { client, creds, rounds }
+}
+
+fn call_values(c: &CallSpec) -> Vec<u64> {
+    vec![c.op as u64, c.variant, c.mutmask, c.status as u64, c.body_kind as u64, c.transport as u64, c.trunc, c.splits[0], c.splits[1], c.splits[2], c.latency[0], c.latency[1], c.latency[2], c.cut]
 }
 
 fn encode_single(client: usize, creds: u64, c: &CallSpec) -> Vec<u64> {
-    vec![
-        client as u64, creds, 0, c.op as u64, c.variant, c.mutmask, c.status as u64, c.body_kind as u64, c.transport as u64, c.trunc, c.splits[0], c.splits[1], c.splits[2], c.latency[0], c.latency[1],
-        c.latency[2], c.cut,
-    ]
+    let mut v = vec![client as u64, creds, 0, 0];
+    v.extend(call_values(c));
+    v
+}
+
+/// two sequential single-call rounds (history of length 2 on one service value)
+fn encode_pair(client: usize, creds: u64, a: &CallSpec, b: &CallSpec) -> Vec<u64> {
+    let mut v = vec![client as u64, creds, 1, 0];
+    v.extend(call_values(a));
+    v.push(0);
+    v.extend(call_values(b));
+    v
 }
 
 // instances: {"<op>": {"request": "...", "response": "...", "mutations": [{"name","position","find","replace"}]}}
@@ -377,10 +394,15 @@ fn run_scenario(infos: &[ClientInfo], insts: &[Instances], sc: &Scenario, ch: &m
     let info = &infos[sc.client];
     let creds = creds_of(sc.creds);
     let ctx = (info.make)(creds.clone());
+    // scripts for all calls of all rounds (global call index = task id)
+    let flat: Vec<&CallSpec> = sc.rounds.iter().flatten().collect();
     let mut scripts = Vec::new();
     let mut preps = Vec::new();
     let mut metas = Vec::new();
-    for c in &sc.calls {
+    let mut all_results: Vec<Option<CallResult>> = Vec::new();
+    let mut quiet: Vec<u64> = Vec::new();
+    let total = flat.len();
+    for c in &flat {
         let opname = info.ops[c.op];
         let (req_xml, positions) = insts[sc.client].request(opname, c.variant, c.mutmask);
         let resp_xml = insts[sc.client].response(opname, c.variant);
@@ -423,16 +445,11 @@ fn run_scenario(infos: &[ClientInfo], insts: &[Instances], sc: &Scenario, ch: &m
         preps.push(p);
     }
     sim::reset(scripts);
-    let mut tasks: Vec<sim::Task<CallResult>> = Vec::new();
-    for p in &mut preps {
-        tasks.push(p.fut.take().unwrap());
-    }
-    let n = tasks.len();
     // N2 (invariant at every step): no call has ever produced more than one connection attempt
     let mut invariant = || -> Result<(), String> {
-        let mut per = vec![0u32; n];
+        let mut per = vec![0u32; total];
         for (t, _) in sim::requests() {
-            if t < n {
+            if t < total {
                 per[t] += 1;
                 if per[t] > 1 {
                     return Err(format!("call {t} opened a second connection"));
@@ -442,7 +459,41 @@ fn run_scenario(infos: &[ClientInfo], insts: &[Instances], sc: &Scenario, ch: &m
         Ok(())
     };
     let mut chooser = |l: &'static str, k: u64| ch.choose(l, k);
-    let (outcome, broken) = sim::run(tasks, &mut chooser, 10_000, &mut invariant);
+    let mut broken = None;
+    let mut base = 0usize;
+    let mut steps = 0u64;
+    let (mut deadlocked, mut cap_hit) = (false, false);
+    for round in &sc.rounds {
+        let mut tasks: Vec<sim::Task<CallResult>> = Vec::new();
+        for i in 0..round.len() {
+            tasks.push(preps[base + i].fut.take().unwrap());
+        }
+        let (outcome, b) = sim::run_round(tasks, base, &mut chooser, 10_000, &mut invariant);
+        steps += outcome.steps;
+        deadlocked |= outcome.deadlocked;
+        cap_hit |= outcome.hit_step_cap;
+        all_results.extend(outcome.results);
+        quiet.extend(outcome.steps_after_last_event);
+        base += round.len();
+        if b.is_some() {
+            broken = b;
+            break;
+        }
+    }
+    while all_results.len() < total {
+        all_results.push(None);
+        quiet.push(0);
+    }
+    struct Out {
+        results: Vec<Option<CallResult>>,
+        steps: u64,
+        deadlocked: bool,
+        hit_step_cap: bool,
+        steps_after_last_event: Vec<u64>,
+    }
+    let outcome = Out { results: all_results, steps, deadlocked, hit_step_cap: cap_hit, steps_after_last_event: quiet };
+    let n = total;
+    let _ = n;
     let hist = sim::history();
     let reqs = sim::requests();
     facts.virtual_us = sim::now_us();
@@ -452,13 +503,13 @@ fn run_scenario(infos: &[ClientInfo], insts: &[Instances], sc: &Scenario, ch: &m
         // the run was stopped at the step that broke the invariant: nothing after it is judged
         if property == "C16" {
             let t = b.split_whitespace().nth(1).and_then(|x| x.parse::<usize>().ok()).unwrap_or(0);
-            let tr = sc.calls.get(t).map_or("?", |c| TRANSPORTS[c.transport]);
+            let tr = flat.get(t).map_or("?", |c| TRANSPORTS[c.transport]);
             facts.findings.push(Finding { class: "more-than-one-post".into(), key: format!("more-than-one-post:after-{tr}"), detail: format!("{}: {b} (transport script of that call: {tr})", info.name) });
         }
         return facts;
     }
     let want_url = norm_url(info.wsdl_location);
-    for (i, c) in sc.calls.iter().enumerate() {
+    for (i, c) in flat.iter().enumerate() {
         let (opname, positions, body, exact) = &metas[i];
         let p = &preps[i];
         let my_reqs: Vec<&sim::Request> = reqs.iter().filter(|(t, _)| *t == i).map(|(_, r)| r).collect();
@@ -578,8 +629,13 @@ fn run_scenario(infos: &[ClientInfo], insts: &[Instances], sc: &Scenario, ch: &m
             facts.fired.push(k);
         }
     }
-    if sc.calls.len() > 1 {
-        facts.probes.push(format!("concurrent_calls:{}", sc.calls.len()));
+    for r in &sc.rounds {
+        if r.len() > 1 {
+            facts.probes.push(format!("concurrent_calls:{}", r.len()));
+        }
+    }
+    if sc.rounds.len() > 1 {
+        facts.probes.push(format!("sequential_rounds:{}", sc.rounds.len()));
     }
     facts
 }
@@ -615,11 +671,9 @@ fn run_batch(infos_fn: fn() -> Vec<ClientInfo>, tapes: &[Vec<u64>], property: &'
                     if i >= tapes.len() {
                         break;
                     }
-                    let mut ch = Chooser::replay(tapes[i].clone());
-                    let sc = decode_scenario(&mut ch, &infos);
-                    let facts = run_scenario(&infos, &insts, &sc, &mut ch, property);
+                                        let (facts, ch, sc) = run_isolated(&infos, &insts, &tapes[i], property);
                     st.runs += 1;
-                    st.calls += sc.calls.len() as u64;
+                    st.calls += sc.rounds.iter().map(Vec::len).sum::<usize>() as u64;
                     st.virtual_us += facts.virtual_us;
                     if let Some(s) = &facts.skipped {
                         *st.skipped.entry(s.clone()).or_insert(0) += 1;
@@ -678,6 +732,29 @@ fn run_batch(infos_fn: fn() -> Vec<ClientInfo>, tapes: &[Vec<u64>], property: &'
         }
     });
     out.into_inner().unwrap()
+}
+
+/// Runs one tape. (A fresh thread per run would also isolate thread-local state that emitted code might keep, but
+/// thread creation costs ~0.5 ms of system time here, 10x the run itself; instead a violation that does not replay in
+/// a fresh process is re-checked in-process and reported with a note, see main.)
+fn run_isolated(infos: &[ClientInfo], insts: &[Instances], tape: &[u64], property: &str) -> (RunFacts, Chooser, Scenario) {
+    let r = std::panic::catch_unwind(std::panic::AssertUnwindSafe(|| {
+        let mut ch = Chooser::replay(tape.to_vec());
+        let sc = decode_scenario(&mut ch, infos);
+        let facts = run_scenario(infos, insts, &sc, &mut ch, property);
+        (facts, ch, sc)
+    }));
+    match r {
+        Ok(x) => x,
+        Err(e) => {
+            let msg = e.downcast_ref::<String>().cloned().or(e.downcast_ref::<&str>().map(|s| (*s).to_string())).unwrap_or_default();
+            let mut ch = Chooser::replay(tape.to_vec());
+            let sc = decode_scenario(&mut ch, infos);
+            let mut facts = RunFacts::default();
+            facts.findings.push(Finding { class: "client-panicked".into(), key: "client-panicked".into(), detail: format!("the generated client (or its driver) panicked: {msg}") });
+            (facts, ch, sc)
+        }
+    }
 }
 
 fn build_tapes(infos: &[ClientInfo], property: &str, tier: &str, seed: u64) -> (Vec<Vec<u64>>, Value) {
@@ -753,7 +830,38 @@ fn build_tapes(infos: &[ClientInfo], property: &str, tier: &str, seed: u64) -> (
             }
         }
     }
-    // seeded: 1..3 concurrent calls, interleavings, chunkings, latencies, all truncation offsets
+    // histories of two sequential calls on one service value (state left behind by the first call)
+    let mut n_pairs = 0u64;
+    for (ci, info) in infos.iter().enumerate() {
+        for op in 0..info.ops.len() {
+            let op2 = (op + 1) % info.ops.len();
+            // (variant, mutmask, status, body, transport)
+            let shapes: [(u64, u64, usize, usize, usize); 6] = [(1, 0, 0, 0, 0), (2, 1, 0, 0, 0), (1, 0, 7, 5, 0), (1, 0, 0, 0, 1), (1, 0, 0, 2, 0), (2, 2, 3, 0, 2)];
+            for (ai, a) in shapes.iter().enumerate() {
+                for (bi, b) in shapes.iter().enumerate() {
+                    for second_op in [op, op2] {
+                        if !thorough && second_op != op && (ai + bi) % 2 == 1 {
+                            continue;
+                        }
+                        let mk = |o: usize, sh: &(u64, u64, usize, usize, usize)| {
+                            let mut c = base.clone();
+                            c.op = o;
+                            c.variant = sh.0;
+                            c.mutmask = sh.1;
+                            c.status = sh.2;
+                            c.body_kind = sh.3;
+                            c.transport = sh.4;
+                            c
+                        };
+                        tapes.push(encode_pair(ci, ((ai + bi) % 2) as u64, &mk(op, a), &mk(second_op, b)));
+                        n_pairs += 1;
+                    }
+                }
+            }
+        }
+    }
+    n_enum += n_pairs;
+    // seeded: 1..3 rounds of 1..3 concurrent calls, interleavings, chunkings, latencies, all truncation offsets
     let n_seeded = if thorough { 1_500_000 } else { 40_000 };
     for r in 0..n_seeded {
         let mut ch = Chooser::explore(Rng::derive(seed, if property == "C16" { "net-seeded" } else { "net-seeded-c07" }, r));
@@ -761,12 +869,12 @@ fn build_tapes(infos: &[ClientInfo], property: &str, tier: &str, seed: u64) -> (
         let mut v = ch.values();
         // schedule choices are drawn while running; give the replay tape its own seeded tail
         let mut rng = Rng::derive(seed, "net-sched", r);
-        for _ in 0..64 {
+        for _ in 0..160 {
             v.push(rng.below(4));
         }
         if property == "C07" {
             // bias towards mutated instances
-            if let Some(x) = v.get_mut(4) {
+            if let Some(x) = v.get_mut(5) {
                 *x = 2;
             }
         }
@@ -809,9 +917,7 @@ fn main() {
             }
         };
         let tape = simkernel::tape_values_from_json(&v["tape"]);
-        let mut ch = Chooser::replay(tape);
-        let sc = decode_scenario(&mut ch, &infos);
-        let facts = run_scenario(&infos, &insts, &sc, &mut ch, property);
+        let (facts, _ch, _sc) = run_isolated(&infos, &insts, &tape, property);
         for l in &facts.trace {
             println!("REPLAY history {l}");
         }
@@ -857,14 +963,8 @@ fn main() {
     }
     let mut violations = Vec::new();
     for (key, (tape, f)) in &by_key {
-        let (min_tape, used) = simkernel::shrink_tape(tape, 400, |t| {
-            let mut ch = Chooser::replay(t.to_vec());
-            let sc = decode_scenario(&mut ch, &infos);
-            run_scenario(&infos, &insts, &sc, &mut ch, property).findings.iter().any(|x| &x.key == key)
-        });
-        let mut ch = Chooser::replay(min_tape.clone());
-        let sc = decode_scenario(&mut ch, &infos);
-        let facts = run_scenario(&infos, &insts, &sc, &mut ch, property);
+        let (min_tape, used) = simkernel::shrink_tape(tape, 400, |t| run_isolated(&infos, &insts, t, property).0.findings.iter().any(|x| &x.key == key));
+        let (facts, ch, sc) = run_isolated(&infos, &insts, &min_tape, property);
         let fin = facts.findings.iter().find(|x| &x.key == key).cloned().unwrap_or(f.clone());
         violations.push(Violation {
             property: property.into(),
@@ -885,7 +985,16 @@ fn main() {
         let st = std::process::Command::new(std::env::current_exe().unwrap()).arg(property).arg("--replay").arg(&p).output();
         match st {
             Ok(out) if out.status.code() == Some(1) && String::from_utf8_lossy(&out.stdout).contains("REPLAY-REPRODUCED") => {}
-            other => report.harness_errors.push(format!("replay of {} did not reproduce in a fresh process: {:?}", p.display(), other.map(|o| o.status))),
+            other => {
+                // state left in this process by earlier runs (e.g. a `static` in emitted code) may be part of the
+                // cause: the violation was observed, so it is reported; the note says how to replay it in context
+                let tape = simkernel::tape_values_from_json(&v.tape);
+                if run_isolated(&infos, &insts, &tape, property).0.findings.iter().any(|x| x.key == v.key) {
+                    println!("NOTE: {} reproduces in this process but not in a fresh one: it depends on process-wide state left by earlier calls; replay the whole batch with VERIF_SEED={} VERIF_WORKERS=1 ./check {property} {tier}", p.display(), report.seed);
+                } else {
+                    report.harness_errors.push(format!("replay of {} did not reproduce: {:?}", p.display(), other.map(|o| o.status)));
+                }
+            }
         }
         paths.push(p);
     }
